@@ -22,7 +22,8 @@ import sys
 from harness import common, scriptlib as sl
 
 PROP = 'C05'
-THEOREMS = ['C05_history']
+THEOREMS = ['C05_history', 'C05_history_model', 'C05_const', 'C05_sum', 'C05_fixed_len', 'C05_edit_distance',
+            'C05_invariant', 'C05_model_partial', 'C05_final_cost_partial', 'C05_quiet_irrelevant_partial']
 MODELS = ['theories/ApiSpec.vo', 'theories/ApiModel.vo']
 HEADER = ('From Coq Require Import ZArith List Bool.\nRequire Import GT.PyBase GT.Data GT.ScriptSpec GT.ApiSpec.\n'
           'Import ListNotations.\nOpen Scope Z_scope.\n')
@@ -276,6 +277,7 @@ def impl_cli(item):
         sys.stdout, sys.stderr = out, err
         raised = None
         status = None
+        _set_quiet('--no-status' in extra)      # the module-level printers of tree / levenshtein never see --no-status
         try:
             try:
                 status = gm.main(['graphtage'] + flags + list(extra) + [pa, pb])
